@@ -17,6 +17,13 @@ correspondence harness computes it with the real libraries: it runs smx509 path 
 itself, verifies the ServerKeyExchange signature itself over the randoms and parameters it saw
 on the wire, and knows whether the peer could produce the right Finished).
 
+The optional user callbacks of the client's configuration (`VerifyPeerCertificate`,
+`VerifyConnection`) do not appear here, on purpose: the statement gives them no role.  What
+user code answers is no evidence about the peer — a callback may make the client refuse a peer
+the statement would let through (then the handshake returned an error and the first clause of
+`judge` applies), it can never excuse a completion the statement forbids.  So the judgement of a
+connection is the same whatever callbacks the client had installed.
+
 Core Lean only.
 -/
 namespace Gotlcp.Spec.ClientAuthn
